@@ -34,7 +34,7 @@ func TestMain(m *testing.M) {
 			"Non-trivial = non-identity indices or TexCoord present or >= 1 non-float property type. Distinct by case JSON.",
 		Assumptions: []string{
 			"point clouds are written with identity indices (the format has no index list for points)",
-			"8-bit colour values lie in [0,1]; TexCoord only on triangle meshes (the writer stores it per face)",
+			"8-bit colour values lie in [0,1]",
 			"uchar-typed SCALAR properties are not generated in the ascii encoding: known finding ascii-uchar-scalar-raw (counted as excluded_known)",
 			"ascii decodes at float32 precision whatever the declared type; double-typed custom properties therefore carry float32-exact values",
 		},
@@ -259,12 +259,8 @@ func genCase(t *rapid.T) Case {
 		for i := range d.Idx {
 			d.Idx[i] = i
 		}
-		delete(d.V2, modeling.TexCoordAttribute)
-		if d.AttrCount() == 0 {
-			d.N, d.Idx = 0, []int{}
-		}
 	}
-	if _, ok := d.V2[modeling.TexCoordAttribute]; ok && d.AttrCount() == 1 {
+	if _, ok := d.V2[modeling.TexCoordAttribute]; ok && d.AttrCount() == 1 && d.Topology() == modeling.TriangleTopology {
 		// a vertex element needs at least one property: TexCoord is stored per face
 		d.V3 = map[string][][3]gen.F{modeling.PositionAttribute: make([][3]gen.F, d.N)}
 	}
@@ -304,10 +300,8 @@ func expected(d gen.MeshDesc) []expAttr {
 	}
 	for name, rows := range d.V2 {
 		rows := rows
-		if name == modeling.TexCoordAttribute {
-			if d.Topology() == modeling.TriangleTopology {
-				out = append(out, expAttr{name: name, arity: 2, get: func(v int) []float64 { return []float64{f(rows[v][0]), f(rows[v][1])} }})
-			}
+		if name == modeling.TexCoordAttribute { // per face on triangle meshes, per vertex (s, t) on point clouds
+			out = append(out, expAttr{name: name, arity: 2, get: func(v int) []float64 { return []float64{f(rows[v][0]), f(rows[v][1])} }})
 			continue
 		}
 		for k := 0; k < 2; k++ {
